@@ -21,7 +21,8 @@ RULE = ("(a) programs drawn by G-PROG, (b) the same with unsupported or illegall
         "(try, raise, with, assert, del, match, type alias, async forms, star imports, functions "
         "containing yield/await) - each converted under all 8 configurations; (d) the G-NEST sweep of "
         "construct interactions (every construct inside / next to every other one, about 17 000 programs; "
-        "quick: 2 configurations by rotation, thorough: all 8). A case is "
+        "quick: 2 configurations by rotation, thorough: all 8); (e) assignment expressions in while conditions "
+        "(10 condition forms x 7 loop bodies x 6 placements x 8 configurations: refused or well-formed). A case is "
         "non-trivial when the conversion RETURNED (was not rejected) and the source has >= 5 "
         "statements; distinct by (source, configuration). returned/rejected counts are reported.")
 
@@ -287,6 +288,8 @@ def run(report):
     per = 200 if quick else 3000
     items += [(_gen_shard, (env.sub_seed(report.seed, "C02", i), per, True, switches)) for i in range(env.NPROC)]
     items += [(_nest_shard, (i, env.NPROC * 2, not quick)) for i in range(env.NPROC * 2)]
+    from ..gen import ww
+    items += [(ww.shard, (i, 8, "wellformed")) for i in range(8)]
     for part in env.pmap(_call, items):
         report.absorb(part)
     report.extra["returned"] = report.classes.get("returned", 0)
